@@ -184,6 +184,44 @@ def run_seeds(mod, pm, base_keys):
         return [_one_seed(i) for i in range(len(seeds))]
 
 
+def _one_refactor(i):
+    mod, pm, items = _G["mod"], _G["pm"], _G["refactors"]
+    name, diff = items[i]
+    try:
+        changes = apply_unified_diff(pm.sources, diff)
+    except ValueError as e:
+        return {"name": name, "status": "n/a", "note": f"patch no longer applies: {e}"}
+    try:
+        pm2 = pm.mutated(changes)
+        ctx2 = Ctx(mod.PROP, "control", quiet=True)
+        run_full(mod, pm2, ctx2)
+    except pmmod.AnalysisError as e:
+        return {"name": name, "status": "undecided", "note": str(e)[:200]}
+    except Exception as e:
+        return {"name": name, "status": "undecided", "note": "internal error: " + repr(e)[:200]}
+    new = [f for f in ctx2.findings if f.key_tuple() not in _G["base_keys"]]
+    if new:
+        return {"name": name, "status": "false-alarm", "note": str(new[0])[:260]}
+    return {"name": name, "status": "undecided" if ctx2.undecided else "silent", "note": (ctx2.undecided[0]["why"][:200] if ctx2.undecided else "")}
+
+
+def run_refactors(mod, pm, base_keys):
+    """thorough tier: the behaviour-preserving refactors written by sub-agents (/verif/benign/*/patch.diff, each shipped with a digest
+    program showing bit-identical behaviour) are applied in memory; a report on one of them is a false alarm of the rules (exit 2)."""
+    import glob
+    root = os.path.join(os.path.dirname(HERE), "benign")
+    items = [(os.path.basename(os.path.dirname(p)), open(p).read()) for p in sorted(glob.glob(os.path.join(root, "*", "patch.diff")))]
+    if not items:
+        return []
+    import multiprocessing as mp_
+    _G.update(mod=mod, pm=pm, refactors=items, base_keys=base_keys)
+    try:
+        with mp_.get_context("fork").Pool(min(len(items), os.cpu_count() or 4)) as pool:
+            return pool.map(_one_refactor, range(len(items)))
+    except Exception:
+        return [_one_refactor(i) for i in range(len(items))]
+
+
 def _run_control(mod, pm, tier, c):
     res = []
     for c in [c]:
@@ -251,6 +289,10 @@ def main():
             twins = run_twins(mod, pm, base_keys)
             extra["benign_twins"] = twins
             extra["benign_twins_summary"] = {k: sum(1 for t in twins if t["status"] == k) for k in ("silent", "undecided", "false-alarm", "n/a")}
+            refs = run_refactors(mod, pm, base_keys)
+            extra["agent_refactors"] = refs
+            extra["agent_refactors_summary"] = {k: sum(1 for t in refs if t["status"] == k) for k in ("silent", "undecided", "false-alarm", "n/a")}
+            twins = twins + [dict(t, name="refactor " + t["name"]) for t in refs if t["status"] == "false-alarm"]
             seeds_res = run_seeds(mod, pm, base_keys)
             extra["seeded_defects"] = seeds_res
             extra["seeded_defects_summary"] = {k: sum(1 for t in seeds_res if t["status"] == k) for k in ("reported", "missed", "undecided", "crash", "n/a")}
